@@ -65,4 +65,23 @@ example : DomOrderRun exRo [⟨5, some "RO1", .EAStoryMove, exMove⟩, ⟨6, som
 example : specRun (storyIds exRo) [⟨5, some "RO1", .EAStoryMove, exMove⟩, ⟨6, some "RO1", .EAStorySwap, exSwap⟩] =
     [some "C", some "D", some "B", some "A"] := by decide
 
+/-- nothing is assumed of the IDs of the running order's own children: a story holding I1, an item
+    WITHOUT an itemID, and I2 is inside the domain of C12; roItemDelete of [I1, I2] skips the ID-less
+    item while searching, deletes both named items, warns of nothing and raises nothing -/
+def exNoIdItem : Xml := .node "item" [] none none [exLeaf "itemSlug" "no id"]
+def exRoNoId : Xml := .node "mos" [] none none [exLeaf "messageID" "1",
+  .node "roCreate" [] none none
+    [exLeaf "roID" "R",
+     .node "story" [] none none [exLeaf "storyID" "A", exItem "I1", exNoIdItem, exItem "I2"]]]
+def exItemDelete : Xml := exMsg (.node "roItemDelete" [] none none
+  [exLeaf "storyID" "A", exLeaf "itemID" "I1", exLeaf "itemID" "I2"])
+
+example : DomC12 ⟨exRoNoId, exItemDelete, .ItemDelete⟩ = true ∧
+    DomC03 ⟨exRoNoId, exItemDelete, .ItemDelete⟩ = true ∧
+    (addK .ItemDelete exRoNoId exItemDelete).err = none ∧
+    (addK .ItemDelete exRoNoId exItemDelete).warns = [] ∧
+    (rcOf (addK .ItemDelete exRoNoId exItemDelete).ro).map (·.kids) =
+      some [exLeaf "roID" "R", .node "story" [] none none [exLeaf "storyID" "A", exNoIdItem]] := by
+  decide
+
 end Mrm
